@@ -38,7 +38,7 @@ func init() {
 				}
 				return 500_000
 			}, Run: c14Options,
-				Min: map[string]int64{"decodes": 100000, "with_palette_options": 50000, "with_color_at_options": 50000, "nonsensical_user_colors": 20000, "gradient_looking_user_colors": 5000,
+				Min: map[string]int64{"decodes": 100000, "with_palette_options": 50000, "with_color_at_options": 50000, "options_written_by_the_caller": 10000, "nonsensical_user_colors": 20000, "gradient_looking_user_colors": 5000,
 					"replacement_after_override": 5000, "paths": 100000, "flat": 50000, "suggested_palette_in_file": 30000, "non_rgba_color_models": 20000, "option_table_prefix_used_first": 10000, "replacement_equals_default_palette": 3000, "renderer_reused_after_same_palette": 100000, "same_graphic_decoded_before_with_other_options": 50000}},
 		},
 	})
@@ -144,6 +144,19 @@ func c14Options(c *run.Ctx, idx uint64) {
 			if sawOverride {
 				c.Count("replacement_after_override", 1)
 			}
+		} else if r.Chance(1, 6) {
+			// an option written by the caller (DecodeOption is an exported function
+			// type): its entries are user-supplied entries like any other
+			i := r.Intn(64)
+			k := gen.AnyRGBA(r)
+			if r.Chance(1, 3) {
+				k = color.RGBA{0x02, 0x14, 0x94, 0x00}
+			}
+			opts = append(opts, decode.DecodeOption(func(m *ivg.Metadata) { m.Palette[i] = k }))
+			odesc = append(odesc, fmt.Sprintf("func(m *ivg.Metadata) { m.Palette[%d] = %#v }", i, k))
+			want[i] = k
+			sawOverride = true
+			c.Count("options_written_by_the_caller", 1)
 		} else {
 			i := r.Intn(64)
 			var col color.Color
